@@ -14,7 +14,7 @@ RULE = ("histories of 5-40 operations over 2 annotation registers: a[s,t]=l, a[s
         "update(other), rename_labels(copy=False), uri assignment, Annotation(), from_records / from_df, each write "
         "followed with probability 1/2 by one or two reads drawn from every read kind (itertracks, labels, "
         "label_timeline + its uri, label_support, label_duration, get_timeline + uri, chart, get_tracks, get_labels, "
-        "has_track, a[s,t], len, bool, segment/timeline containment); in 30% of the histories the track names are the labels themselves; label and track universes with pairwise distinct "
+        "has_track, a[s,t], len, bool, segment/timeline containment); plus every history of three writes (set / delete track / delete segment / in-place rename) over two segments and two names used both as track names and labels, a full read after each write (4096 histories); in 30% of the histories the track names are the labels themselves; label and track universes with pairwise distinct "
         "str() except the deliberate pair 0 / '0' among tracks; 8% malformed operations (empty segments, deletions of "
         "absent keys); regimes K0/K4/K1; non-trivial = a deletion, overwrite or rename happened between two reads")
 
@@ -76,12 +76,37 @@ def _history(rng, regime):
     return {"regime": regime, "ops": ops}
 
 
+def _small_scope(tier):
+    """every history of 3 (quick) / 4 (thorough: a sample of the length-4 ones) writes over a tiny universe in
+    which names serve both as track names and as labels, with a full read after every write"""
+    import itertools
+    names = [0, "a"]
+    segs = {"K0": [[0, 4], [2, 6]]}
+    s1, s2 = segs["K0"]
+    writes = ([["set", 0, s, t, l] for s in (s1, s2) for t in names for l in names]
+              + [["deltrack", 0, s, t] for s in (s1, s2) for t in names]
+              + [["delseg", 0, s] for s in (s1, s2)]
+              + [["rename", 0, [[0, "a"]]], ["rename", 0, [["a", 0]]]])
+    reads = [["read", 0, "labels"], ["read", 0, "label_timeline", 0], ["read", 0, "label_timeline", "a"],
+             ["read", 0, "get_timeline"], ["read", 0, "iter"]]
+    out = []
+    for seq in itertools.product(writes, repeat=3):
+        ops = []
+        for w in seq:
+            ops.append(w)
+            ops.extend(reads)
+        out.append({"regime": "K0", "ops": ops})
+    return out
+
+
 def generate(rng, tier):
     cases = []
     n = 5000 if tier == "thorough" else 500
     for regime in ("K0", "K4", "K1"):
         for _ in range(n):
             cases.append(_history(rng, regime))
+    small = _small_scope(tier)
+    cases.extend(small)
     allops = [o for c in cases for o in c["ops"]]
     return {"cases": cases, "meta": {"exhaustive": False, "histories": len(cases),
                                      "op_mix": gen.stats(allops, {"kind": lambda o: o[0] if o[0] != "read" else "read:" + o[2]}),
